@@ -149,7 +149,7 @@ def replay_cases(obj):
 
     def walk(o):
         if isinstance(o, dict):
-            if o.get("kind") in ("send", "announce", "clear", "ingest") and ("reg" in o or "via" in o or "secret" in o):
+            if o.get("kind") in ("send", "announce", "clear", "ingest", "pubfail") and ("reg" in o or "via" in o or "secret" in o):
                 c = dict(o)
                 if c["kind"] == "ingest":
                     c.setdefault("subnets", SUBNETS)
@@ -172,6 +172,9 @@ def gen_cases(ctx):
     cases = [{"kind": "meta"}]
     for c in replay_cases(ctx.replay):
         cases.append(c)
+    for mode in ("err", "close"):
+        cases.append({"kind": "pubfail", "via": mode, "reg": {"phantom": hx(v6[2]), "addr": hx(v4[0]), "port": 443, "proto": 1},
+                      "secret": rng.getrandbits(256).to_bytes(32, "big").hex()})
     cases.append({"kind": "clear", "via": "clearDetector"})
     cases.append({"kind": "clear", "via": "Cleanup"})
 
@@ -502,7 +505,7 @@ def gen_histories(ctx, pool, pairs):
     for (n, u) in pairs[:(10 if quick else 120)]:
         t0 = NOW + rng.randrange(10 ** 9)
         t1 = t0 + rng.randrange(1, UNUSED_NS)           # first use, while still accepted
-        other = rng.choice(pool)
+        other = rng.choice([x for x in pool if x[0]["op"] != 3])   # anything but a Clear (which legitimately empties the table)
         h = [(t0, "M", n, None), (t0, "Q", n, True),
              (t0 + UNUSED_NS // 2, "S", None, None), (t0 + UNUSED_NS // 2, "M", other, None),
              (t0 + UNUSED_NS - 1, "S", None, None), (t0 + UNUSED_NS - 1, "Q", n, True),
@@ -669,16 +672,40 @@ def run(ctx):
 
 
 def check_call_site(ctx):
-    """source-shape check: the station's main() still asks for the clean-up at shutdown (main cannot be run here)"""
+    """source-shape check of the shutdown path (main() needs zmq, a tun device and a dtls listener and cannot be run here):
+    main defers / calls RegistrationManager.Cleanup() before it waits for signals, and the code after the signal loop
+    returns normally (no os.Exit / Fatal / panic, which would skip deferred calls)"""
     import glob
     import re
     d = os.path.join(lib.REPO, "cmd", "application")
     srcs = [f for f in glob.glob(os.path.join(d, "*.go")) if not f.endswith("_test.go")]
-    txt = "\n".join(re.sub(r"//[^\n]*", "", open(f).read()) for f in srcs)
+    strip = lambda t: re.sub(r"//[^\n]*", "", t)
+    txt = "\n".join(strip(open(f).read()) for f in srcs)
     ctx.count(("call-site",), kind="call-site")
     if not re.search(r"\.Cleanup\(\)", txt):
         ctx.fail("clear:not-requested-at-shutdown", "cmd/application no longer calls RegistrationManager.Cleanup(): a station that shuts down "
                  "leaves its sessions in the detector", {"files": [os.path.basename(f) for f in srcs]})
+        return
+    mp = os.path.join(d, "main.go")
+    if not os.path.exists(mp):
+        return
+    m = strip(open(mp).read())
+    i = m.find("func main()")
+    j = m.find("signal.Notify(", i)
+    if i < 0 or j < 0:
+        ctx.cov["shutdown_path"] = "main() / signal.Notify not found: shape check skipped"
+        return
+    head, tail = m[i:j], m[j:]
+    deferred = re.search(r"defer\s+[\w.]+\.Cleanup\(\)", head) is not None
+    explicit = re.search(r"(?<!defer )\b[\w.]+\.Cleanup\(\)", tail) is not None
+    skip = re.search(r"\b(os\.Exit|[\w.]*Fatal\w*|panic|[\w.]*Panic\w*)\(", tail)
+    ctx.cov["shutdown_path"] = {"deferred_before_signal_wait": deferred, "explicit_after_loop": explicit,
+                                "defer_skipping_call_after_signal_wait": skip.group(0) if skip else None}
+    if not (deferred or explicit):
+        ctx.fail("clear:not-requested-at-shutdown", "main() neither defers Cleanup() before waiting for signals nor calls it afterwards", {})
+    elif deferred and not explicit and skip:
+        ctx.fail("clear:shutdown-path-skips-deferred-cleanup", "after the signal loop main() calls %s...), which ends the process without "
+                 "running the deferred Cleanup(): the clear request is never sent" % skip.group(0), {"call": skip.group(0)})
 
 
 def _run(ctx, binary):
@@ -734,6 +761,16 @@ def _run(ctx, binary):
             if meta["ipproto"] != {"Unk": 0, "Tcp": 1, "Udp": 2} or meta["station_ops"] != {"Unknown": 0, "New": 1, "Update": 2, "Clear": 3}:
                 ctx.broken("correspondence", "enum numbering in the generated Go code differs from the model's: %s %s" % (meta["ipproto"], meta["station_ops"]))
             ctx.count(("meta",), nontrivial=True, kind="meta")
+            continue
+        if kind == "pubfail":
+            pf = r.get("pubfail") or {}
+            ctx.count(("pubfail", c["via"]), kind="pubfail/" + c["via"])
+            add("(CPublishFail %s %s)" % (gbool(bool(pf.get("valid")) and pf.get("visible", 0) > 0), gbool(len(msgs) > 0)), ci, "pubfail")
+            if pf.get("valid") and pf.get("visible", 0) > 0 and not msgs:
+                ctx.fail("publish-error:valid-but-unannounced",
+                         "Redis %s the PUBLISH (%d attempts by the client library): register() marks the registration valid and returns it for "
+                         "connections although the detector was never told" % ({"err": "answers with an error to", "close": "drops the connection on"}[c["via"]],
+                                                                                pf.get("attempts", 0)), {"case": c, "observed": pf})
             continue
         if kind == "send":
             if len(msgs) != 1:
@@ -846,8 +883,7 @@ def _run(ctx, binary):
     ctx.require_kinds(["meta", "send/accepted", "send/InvalidPhantom", "send/InvalidClient", "send/MixedV4V6Error",
                        "send/UnrecognizedProto", "announce/accepted", "clear/acted-on", "ingest/0-regs", "ingest/1-regs",
                        "ingest/2-regs", "ingest-announce/ok", "newreg/ok", "newreg/rejected", "detect/ok/added", "detect/InvalidPhantom/nothing",
-                       "detect/InvalidClient/nothing", "detect/MixedV4V6Error/nothing", "detect/UnrecognizedProto/cleared", "history/lifetime", "history/random", "pubsub"]
-                      if not ctx.known else ["meta", "send/accepted", "ingest/2-regs", "detect/ok/added"])
+                       "detect/InvalidClient/nothing", "detect/MixedV4V6Error/nothing", "detect/UnrecognizedProto/cleared", "history/lifetime", "history/random", "pubsub", "pubfail/err", "pubfail/close"])
     if ctx.failures or ctx.brokens:
         # outcome classes are only meaningful as a generator self-test when nothing else is wrong
         ctx.brokens[:] = [b for b in ctx.brokens if b["kind"] != "generator-selftest"]
